@@ -3,7 +3,11 @@
 // inside the data or is a pure append at the end, a read lies inside the data.
 pub type StorageSlice<'a> = Cow<'a, [u8]>;
 
-pub uninterp spec fn cow_view<T: Clone>(c: Cow<'_, [T]>) -> Seq<T>;
+// what a Cow derefs to (std, T2)
+pub uninterp spec fn cow_ref<'a, B: ?Sized + ToOwned>(c: Cow<'a, B>) -> &'a B;
+pub assume_specification<'a, 'b, B: ?Sized + ToOwned> [<Cow<'a, B> as core::ops::Deref>::deref] (c: &'b Cow<'a, B>) -> (s: &'b B)
+    ensures s == cow_ref(*c);
+pub open spec fn cow_view<T: Clone>(c: Cow<'_, [T]>) -> Seq<T> { cow_ref(c)@ }
 
 pub trait StorageData: Sized {
     spec fn view(&self) -> Seq<u8>;
